@@ -25,10 +25,10 @@ import vlib  # noqa: E402
 NA = "éüß"   # é ü ß : cp1252-encodable, and their cp1252 bytes followed by ASCII are not valid UTF-8
 
 TEXTS = {
-    "v1": ("(* café *) TYPE LEVEL_V1 : (LOW_V1, HIGH_V1) := LOW_V1; END_TYPE\nFUNCTION_BLOCK FB_V1\n"
-           "VAR a : INT; b : INT; s : STRING := 'über'; END_VAR\n(* ß *) a := b + 1; (* é *)\nEND_FUNCTION_BLOCK\n"),
+    "v1": ("(* café \u20ac \u2122 \u2026 *) TYPE LEVEL_V1 : (LOW_V1, HIGH_V1) := LOW_V1; END_TYPE\nFUNCTION_BLOCK FB_V1\n"
+           "VAR a : INT; b : INT; s : STRING := 'über \u20ac'; END_VAR\n(* ß \u201c \u201d *) a := b + 1; (* é *)\nEND_FUNCTION_BLOCK\n"),
     "s1": ("FUNCTION_BLOCK FB_S1\nVAR a : INT; b : INT; s : STRING := 'grüß'; END_VAR\n"
-           "(* ééé *) s := 'ü'; a := c + 1;\nEND_FUNCTION_BLOCK\n"),
+           "(* ééé \u20ac\u2122 *) s := 'ü\u2013'; a := c + 1;\nEND_FUNCTION_BLOCK\n"),
     "l1": ("FUNCTION_BLOCK FB_L1\nVAR a : INT; b : INT; END_VAR\n(* été *) a := b ? 1;\nEND_FUNCTION_BLOCK\n"),
 }
 ENC_DISK = {"dirof": {"v1": "dA", "s1": "dA", "l1": "dA"}, "classof": {"v1": "V", "s1": "S", "l1": "L"}, "provider": {},
@@ -119,6 +119,10 @@ def part_enc(rep, cov, tier):
                 same = o["rc"] == ref["rc"]
             else:
                 same = (o["rc"], o["ok"], o["located"]) == (ref["rc"], ref["ok"], ref["located"])
+            # what is printed for a valid set (the echoed program, the token table with its Ln / Col) is a function of
+            # the decoded text as well
+            if same and cmd in ("echo", "tokenize") and ref["rc"] == 0 and o["stdout_sha"] != ref["stdout_sha"]:
+                same = False
             if not same:
                 diff = sorted(e for f, e in enc.items() if ref_enc[f] != e)
                 rep.add("encoding:positions-or-verdict-differ:%s" % cmd, labels={cmd} | set("enc:" + e for e in diff),
